@@ -127,7 +127,26 @@ def ov_json(v):
 # --------------------------------------------------------------------------------------
 # parsing an ov term printed by Coq
 # --------------------------------------------------------------------------------------
-_TOK = re.compile(r"\s*(VL|VZ|VQ|VA|VN|VB|VE|true|false|\[|\]|;|\(|\)|#|-?\d+|%[A-Za-z]+)")
+_TOK = re.compile(r"\s*(VL|VZ|VQ|VA|VN|VB|VE|true|false|\[|\]|;|\(|\)|#|-?0x[0-9a-fA-F]+(?:\.[0-9a-fA-F]+)?|-?\d+\.\d+|-?\d+|%[A-Za-z]+)")
+
+
+def _num_token(t):
+    """integer, decimal or hexadecimal (with fraction) literal as printed by Coq's Q number notation"""
+    neg = t.startswith("-")
+    if neg:
+        t = t[1:]
+    if t.startswith("0x") or t.startswith("0X"):
+        body = t[2:]
+        if "." in body:
+            a, b = body.split(".")
+            v = Fraction(int(a + b, 16), 16 ** len(b))
+        else:
+            v = Fraction(int(body, 16))
+    elif "." in t:
+        v = Fraction(t)
+    else:
+        v = Fraction(int(t))
+    return -v if neg else v
 
 
 def parse_ov(text):
@@ -148,7 +167,8 @@ def parse_ov(text):
             v = num()
             assert nxt() == ")"
             return v
-        return int(t)
+        v = _num_token(t)
+        return int(v) if v.denominator == 1 else v
 
     def rat():
         t = peek()
